@@ -10,7 +10,7 @@ DUTs (real luna classes, domain "ss"), one harness per case:
          packets (4..1024 bytes) on the protocol side: TSEQ, TS1, TS2, link commands (LGOOD/LCRD/LUP/LRTY), header
          packets, data packet payloads and retries appear on the transmit stream, with streams of different arbiter inputs
          back to back.  Warm resets during equaliser training restart the bring-up.  To reach U0 in a short case the
-         harness constructs the TSEQ emitter with a burst of 24..150 ordered sets instead of 65536 (constructor argument
+         harness constructs the TSEQ emitter with a burst of 40 ordered sets instead of 65536 (constructor argument
          overridden from the harness, nothing else touched); the thorough tier also runs cases with the unmodified length
          (524288 cycles of TSEQ).
 
@@ -81,7 +81,7 @@ REQUIRED_EVENTS = ["phy_words_compared", "phy_data_symbols_descrambled", "skp_wo
 ASSUMPTIONS = ["phy harness: tx_electrical_idle is low from the start-up on; the stream before the COM-led sync word is not judged",
                "SKP sets are counted against all symbols on the PHY pins (SKP symbols included) with a phase allowance of 4 words",
                "the link stream never contains K28.1, COM only in symbol 0 of an all-control word",
-               "link harness: TSEQ burst shortened to 24..150 ordered sets by a harness-side constructor override (thorough: also unmodified)",
+               "link harness: TSEQ burst shortened to 40 ordered sets by a harness-side constructor override (thorough: also unmodified)",
                "link harness: permission for idle filler is not demanded while tx_electrical_idle is high; <= 2 unpermitted filler words per run",
                "reference keystream = bit-serial LFSR of USB 3.2 appendix B (self-test: TSEQ symbols)"]
 
@@ -809,6 +809,60 @@ class LinkMonitor:
                 res.event("link_permission_differs_from_arbiter_idle")
 
 
+SHORT_TSEQ_SETS = 40
+_LINK_DESIGNS = {}         # per worker process: TSEQ burst length -> (stub, link layer, arbiter, bench)
+
+
+class ReusableBench(Bench):
+    """Bench whose compiled simulator can be reset and run again with new drivers and monitors."""
+
+    def __init__(self, *a, **k):
+        super().__init__(*a, **k)
+        self._tb_added = False
+
+    def rearm(self):
+        self.sim.reset()
+        self.cycle = 0
+        self.hit_max_cycles = False
+        self._watch, self._idx, self._vals, self._pending = [], {}, (), {}
+        self._drivers, self._monitors = [], []
+        self._started = self._stop = False
+
+    def run(self):
+        import warnings
+        self._started = True
+        if not self._watch:
+            raise RuntimeError("nothing watched")
+        if not self._tb_added:
+            self._tb_added = True
+            bench = self
+
+            async def tb(ctx):
+                watch = tuple(bench._watch)
+                tick = ctx.tick(bench.domain).sample(*watch)
+                bench._vals = tuple(ctx.get(s) for s in watch)
+                bench._advance_drivers()
+                while True:
+                    if bench._pending:
+                        for sig, val in bench._pending.values():
+                            ctx.set(sig, val)
+                        bench._pending.clear()
+                    bench._vals = (await tick)[2:]
+                    bench.cycle += 1
+                    for m in bench._monitors:
+                        m(bench)
+                    if not bench._advance_drivers() or bench._stop:
+                        break
+                    if bench.cycle >= bench.max_cycles:
+                        bench.hit_max_cycles = True
+                        break
+            self.sim.add_testbench(tb)
+        with warnings.catch_warnings():
+            warnings.simplefilter("ignore")
+            self.sim.run()
+        return self
+
+
 class ShortTSEQ:
     """Harness-side parameter override: the TSEQ emitter is constructed with a burst of `sets` ordered sets instead of 65536
     (524288 cycles), so that U0 is reachable in a short case.  Nothing else is touched; `sets=None` leaves luna unmodified."""
@@ -839,13 +893,21 @@ def run_link(rng, tier, res, full):
     from luna.gateware.usb.usb3.link.layer import USB3LinkLayer
     from luna.gateware.usb.stream import SuperSpeedStreamArbiter
 
-    stub = make_stub_phy()
-    link = USB3LinkLayer(physical_layer=stub, ss_clock_frequency=125e6)
-    tseq_sets = None if full else rng.choice([24, 40, 64, 150])
+    tseq_sets = None if full else SHORT_TSEQ_SETS
     budget = 1_200_000 if full else 40000
-    with Registry(SuperSpeedStreamArbiter) as reg, ShortTSEQ(tseq_sets):
-        b = Bench(link, domain="ss", freq=125e6, clocks={"sync": 125e6}, max_cycles=budget)
-    arb = reg.one(SuperSpeedStreamArbiter)
+    cached = _LINK_DESIGNS.get(tseq_sets)
+    if cached is None:
+        stub = make_stub_phy()
+        link = USB3LinkLayer(physical_layer=stub, ss_clock_frequency=125e6)
+        with Registry(SuperSpeedStreamArbiter) as reg, ShortTSEQ(tseq_sets):
+            b = ReusableBench(link, domain="ss", freq=125e6, clocks={"sync": 125e6}, max_cycles=budget)
+        arb = reg.one(SuperSpeedStreamArbiter)
+        _LINK_DESIGNS[tseq_sets] = (stub, link, arb, b)
+    else:
+        # the compiled design is reused inside one worker process (elaboration costs ~10 s); Simulator.reset() puts every
+        # signal, memory and process back to its initial state, so the case does not depend on what ran before
+        stub, link, arb, b = cached
+        b.rearm()
     mon = LinkMonitor(res, b, stub, arb, link)
     mon.watch()
     b.watch(stub.send_lfps_polling, stub.train_equalizer, stub.perform_rx_detection, link.trained, link.ready,
